@@ -249,6 +249,13 @@ class Inliner:
             new_body += r if isinstance(r, list) else [r]
         falls_through = not isinstance(last, (ast.Return, ast.Raise))
         if falls_through:
+            # decided on the helper's control-flow graph: does anything but a return reach the exit?
+            try:
+                cfg = self.prog.flow(callee).cfg
+                falls_through = any(not (p.kind == "stmt" and isinstance(p.ast, ast.Return)) for p, _lab in cfg.exit.pred)
+            except Exception:  # noqa: BLE001
+                falls_through = True
+        if falls_through:
             if target is not None:
                 new_body.append(ast.copy_location(ast.Assign(targets=[clone(target)], value=ast.Constant(value=None)), call))
             new_body.append(ast.copy_location(ast.Break(), call))
